@@ -153,9 +153,26 @@ struct Shared
         const std::size_t n = v.size();
         if (op == "size") return static_cast<int>(n);
         if (op == "data")
+        {
+            // everything a const vector answers about itself: pointers, capacity, footprint, fixed sizes, allocator,
+            // const iterator arithmetic and comparison (each term is 0 when the answer is right)
+            int extra = 0;
+            if constexpr (std::is_same_v<T, TFixed>) extra += v.template get_fixed_size<0>() == 3 ? 0 : 400;
+            const auto b = v.cbegin();
+            const auto e = v.cend();
+            extra += (static_cast<std::size_t>(e - b) == n ? 0 : 200) + ((b + static_cast<std::ptrdiff_t>(n - 1))[0] == v.back() ? 0 : 300) +
+                     (b < e && !(e < b) && b + static_cast<std::ptrdiff_t>(n) == e ? 0 : 500) +
+                     (v.get_allocator() == elem->get_allocator() ? 0 : 600);
             return (v.data_end() > v.data_begin() ? 1 : 0) + static_cast<int>(n) - 1 + (v.capacity() >= n ? 0 : 100) +
-                   (v.empty() ? 50 : 0) + (v.memory_consumption() > 0 ? 0 : 70);
-        if (op == "index") return T::key(v[static_cast<std::size_t>(arg) % n]);
+                   (v.empty() ? 50 : 0) + (v.memory_consumption() > 0 ? 0 : 70) + extra;
+        }
+        if (op == "index")
+        {
+            const std::size_t i = static_cast<std::size_t>(arg) % n;
+            const auto r = v[i];
+            return T::key(r) + (v.back() == v[n - 1] && v.front() == v[0] ? 0 : 1000) + (T::key(v.begin()[static_cast<std::ptrdiff_t>(i)]) == T::key(r) ? 0 : 2000) +
+                   (r.data_end() >= r.data_begin() && r.size_in_bytes() == static_cast<std::size_t>(r.data_end() - r.data_begin()) ? 0 : 4000);
+        }
         if (op == "iterate")
         {
             int s = 0;
